@@ -553,7 +553,11 @@ def run(ctx):
         if clause.startswith(("mapped-back", "dropping", "added", "compiled-solvable", "tag-is-not")):
             extra.append(r["fam"])
             extra.append("reduced" if reduced else "all-tags")
-            extra += [f for f in fs if f == "constatom"]
+            if clause.startswith(("dropping", "added")):
+                # domination is computed per literal AFTER disjunctions were split (known incompleteness class)
+                extra.append(",".join(f for f in fs if f in ("constatom", "disj-pre", "disj-goal")) or "conj")
+            else:
+                extra += [f for f in fs if f == "constatom"]
         if clause.startswith("conformant-plan-exists"):
             extra.append(",".join(f for f in fs if f in ("constatom", "disj-pre", "disj-goal")) or "conj")
         if clause.startswith("compiler-raises"):
